@@ -319,6 +319,52 @@ func govcOnceInitiatorCancelled() string {
 	return ""
 }
 
+// as above, but the function reports its interruption with an error of its own
+func govcOnceInitiatorCancelledOwnErr() string {
+	var calls atomic.Int32
+	o := NewOnce(func(ctx context.Context) (int, error) {
+		if calls.Add(1) == 1 {
+			<-ctx.Done()
+			return 0, errors.New("fetch interrupted")
+		}
+		return 42, nil
+	})
+	actx, acancel := context.WithCancel(context.Background())
+	ares := make(chan error, 1)
+	go func() { _, err := o.Resolve(actx); ares <- err }()
+	time.Sleep(30 * time.Millisecond)
+	type r struct {
+		v   int
+		err error
+	}
+	res := make(chan r, 3)
+	for i := 0; i < 3; i++ {
+		go func() { v, err := o.Resolve(context.Background()); res <- r{v, err} }()
+	}
+	time.Sleep(30 * time.Millisecond)
+	acancel()
+	select {
+	case err := <-ares:
+		if err != context.Canceled {
+			return fmt.Sprintf("the cancelled caller got %v, want context.Canceled", err)
+		}
+	case <-time.After(govcGrace):
+		return "the cancelled caller did not return"
+	}
+	for i := 0; i < 3; i++ {
+		select {
+		case x := <-res:
+			if x.err != nil || x.v != 42 {
+				return fmt.Sprintf("a caller with a live context got (%d, %v) after the initiator was cancelled; want (42, nil)", x.v, x.err)
+			}
+		case <-time.After(govcGrace):
+			return "a caller with a live context stayed blocked after the initiator was cancelled"
+		}
+	}
+	return ""
+}
+
+
 // the function succeeds after the initiator has left: the success is kept
 func govcOnceLateSuccess() string {
 	var calls atomic.Int32
@@ -376,7 +422,7 @@ func TestGovcReplay(t *testing.T) {
 	var scenarios []func() string
 	switch {
 	case strings.Contains(rf.Obligation, "Once)") || strings.Contains(rf.Obligation, "NewOnce"):
-		scenarios = append(scenarios, govcOnceSuccess, govcOnceRetry, govcOnceInitiatorCancelled, govcOnceLateSuccess)
+		scenarios = append(scenarios, govcOnceSuccess, govcOnceRetry, govcOnceInitiatorCancelled, govcOnceInitiatorCancelledOwnErr, govcOnceLateSuccess)
 	case strings.Contains(rf.Obligation, "PromiseContainer") && strings.Contains(rf.Obligation, "backedge"):
 		scenarios = append(scenarios, func() string { return govcCanceledResult(which) })
 	case strings.Contains(rf.Obligation, "PromiseContainer") && strings.Contains(rf.Obligation, "invoke1"):
